@@ -206,6 +206,40 @@ func init() {
 			sr.s = str
 			c07Envelope(o, sroot, "{ s l fail }", "", nil, "string-table")
 		}
+		// unknown top-level words in every position relative to line ends and the end of input: the location of
+		// "'x' is not a valid executable operation type" (D64)
+		for _, pre := range []string{"", " ", "\n", "{ s }\n", "{ s } ", "# c\n", "\r\n  ", "{ s }\n\n   ", "\t", "{ s },\n,"} {
+			for _, word := range []string{"fra", "x", "queryx", "Fragment", "subscriptions"} {
+				for _, post := range []string{"", " ", "\n", "\r\n", "{", " { s }", "\n{ s }", ",", "#c\n", "\t", "(", "\n\n", " \n"} {
+					doc := pre + word + post
+					res := safeResolve(sroot, doc, "", nil)
+					obs := N("noloc")
+					if ea, ok := res["errors"].([]interface{}); ok {
+						for _, e := range ea {
+							em, _ := e.(map[string]interface{})
+							if msg, _ := em["message"].(string); !strings.Contains(msg, "is not a valid executable operation type") {
+								continue
+							}
+							if l, ok := em["locations"].([]interface{}); ok && len(l) > 0 {
+								lm, _ := l[0].(map[string]interface{})
+								li, _ := lm["line"].(int)
+								co, _ := lm["column"].(int)
+								obs = N("loc", I(int64(li)), I(int64(co)))
+								break
+							}
+						}
+					}
+					if obs.Tag == "noloc" {
+						o.Count("op-word-error-not-reached")
+						continue
+					}
+					o.Count("op-word")
+					o.Emit(Case{Term: N("c07op", S(doc), I(int64(len(pre))), I(int64(len(word)))), Obs: obs,
+						Meta: map[string]interface{}{"doc": doc, "response": fmt.Sprint(res)}, Nontrivial: true})
+					c07Envelope(o, sroot, doc, "", nil, "op-word")
+				}
+			}
+		}
 		n := 300
 		if tier == "thorough" {
 			n = 12000
